@@ -1,6 +1,7 @@
 import PlumVerif.Model.SetL
 import PlumVerif.Model.SetMDriver
 import PlumVerif.Spec.C08L
+import PlumVerif.Spec.C06L
 /-
 line-protocol front end for the parameter-lifetime machine (several set() calls)
 
@@ -8,6 +9,9 @@ line-protocol front end for the parameter-lifetime machine (several set() calls)
       -> <group>|<group>|…;<final clock>;<value>:<min>:<max>;<pending 0|1>:<previous>
          set / re-read requests as in `c08` (no call number), returns carry the call number: T:<id>:<t> F:<id>:<t> E:<id>:<t>
   c08ljudge <tracking 0|1> <value> <min> <max> <event>=<out>,<out>… *      -> pass | fail@<index>
+  c06ljudge <hold 0|1> <tracking 0|1> <value> <min> <max> <start ms> <event>=<out>,<out>… *
+      -> pass | f7@<index>:<value>:<min>:<max> | violation@<index>:<value>:<min>:<max> | refusal@<index>
+         (C06 over a lifetime with overlapping calls: `C06L.judge`)
 -/
 namespace PlumVerif
 open PlumVerif.SetM
@@ -62,6 +66,16 @@ def setLOps : List String → Option String
     pure (match C08L.firstBadL (C08L.LMon.init tracking ⟨v, lo, hi⟩) 0 its with
       | none => "pass"
       | some k => s!"fail@{k}")
+  | "c06ljudge" :: h :: tr :: v :: lo :: hi :: start :: items => do
+    let hold ← SetM.parseBool h
+    let tracking ← SetM.parseBool tr
+    let v ← v.toNat?; let lo ← lo.toNat?; let hi ← hi.toNat?; let start ← start.toNat?
+    let its ← items.mapM SetL.parseItem
+    pure (match C06L.judge hold tracking ⟨v, lo, hi⟩ start its with
+      | .pass => "pass"
+      | .f7 x => s!"f7@{x.k}:{x.v}:{x.lo}:{x.hi}"
+      | .violation x => s!"violation@{x.k}:{x.v}:{x.lo}:{x.hi}"
+      | .refusal k => s!"refusal@{k}")
   | _ => none
 
 end PlumVerif
